@@ -29,6 +29,7 @@ import Golib.HMap.Linked
 import Golib.HMap.Plain
 import Golib.HMap.Types
 import Golib.HMap.TableLemmas
+import Golib.HMap.Wire
 
 set_option linter.unusedSectionVars false
 set_option linter.unusedSimpArgs false
@@ -36,13 +37,14 @@ set_option linter.unusedSimpArgs false
 namespace HMap.IR
 
 /-- what a `return` statement returns (the abstract result — previous value or absent — is determined by where it stands) -/
-inductive Ret | old | absent | emptyStr | key | cellKey | boolT | boolF | value | cur | zero | unknown
+inductive Ret | old | absent | emptyStr | key | cellKey | boolT | boolF | value | cur | zero | removeResult | nothing | unknown
   deriving DecidableEq, Repr
 
 /-- statements inside `if e.key == key { … }` -/
 inductive FSt
   | saveOld | assign | accumulate
   | switchRelink (cs : List (List Mode × End))
+  | relink (e : End)          -- `if header.link_X != e { unchain(e); chain(…) }` outside a switch (GetLRU)
   | countDec | clearValue | unchain
   | ret (r : Ret)
   | unknown
@@ -60,6 +62,11 @@ inductive TSt
   | newCell
   | switchLink (cs : List (List Mode × End))
   | countInc
+  | retIfEmpty (r : Ret)      -- `if this.count == 0 { return r }`
+  | retRemoveEnd (e : End)    -- `return this.remove(this.header.link_X.key)`
+  | clearBuckets              -- `for index := len(tab)-1; index >= 0; index-- { tab[index] = nil }`
+  | headerReset               -- `header.link_next = header; header.link_prev = header`
+  | countZero                 -- `this.count = 0`
   | ret (r : Ret)
   | unknown
   deriving DecidableEq, Repr
@@ -90,6 +97,9 @@ def stepF (cx : Cx K V) : FSt → Cx K V
     | some .front => { cx with m := { cx.m with order := LMap.moveFirst cx.m.order k } }
     | some .back => { cx with m := { cx.m with order := LMap.moveLast cx.m.order k } }
     | _ => cx
+  | .relink .front => { cx with m := { cx.m with order := LMap.moveFirst cx.m.order k } }
+  | .relink .back => { cx with m := { cx.m with order := LMap.moveLast cx.m.order k } }
+  | .relink .unknown => { cx with ret := some .unknown }
   | .countDec => { cx with m := { cx.m with count := cx.m.count - 1 } }
   | .clearValue => cx
   | .unchain => { cx with m := { cx.m with order := cx.m.order.erase k } }
@@ -128,6 +138,14 @@ def stepT (cx : Cx K V) : TSt → Cx K V
     | some .back => { cx with m := { cx.m with order := cx.m.order ++ [k] } }
     | _ => cx
   | .countInc => { cx with m := { cx.m with count := cx.m.count + 1 } }
+  | .retIfEmpty r => if cx.m.count = 0 then { cx with ret := some r } else cx
+  | .retRemoveEnd e =>
+    match (match e with | .front => cx.m.order.head? | .back => cx.m.order.getLast? | .unknown => none) with
+    | some k' => { cx with m := (cx.m.remove hash k').1, ret := some .removeResult }
+    | none => { cx with ret := some .removeResult }
+  | .clearBuckets => { cx with m := { cx.m with tab := cx.m.tab.clear } }
+  | .headerReset => { cx with m := { cx.m with order := [] } }
+  | .countZero => { cx with m := { cx.m with count := 0 } }
   | .ret r => { cx with ret := some r }
   | .unknown => { cx with ret := some .unknown }
 
@@ -653,6 +671,219 @@ theorem remove_plain_interp (p : RemoveShape) (hl : p.linked = false)
     | false =>
       simp only [Bool.false_eq_true, if_false]
       exact canonRemove_plain_correct d hash thr { p with guard := none } hl rfl pm k v
+
+/-! ### read-only lookups, GetLRU, RemoveFirst / RemoveLast, clear -/
+
+/-- `Get` / `ContainsKey` / `Contains`: `[index, scan [ret rF], ret rA]` (optionally behind the empty-key guard) leaves the
+    map unchanged and answers by presence -/
+def canonLookup (guard : Option Ret) (rF rA : Ret) : List TSt :=
+  (match guard with | some r => [TSt.guardEmpty r] | none => []) ++ [TSt.index, TSt.scan [FSt.ret rF], TSt.ret rA]
+
+theorem canonLookup_correct (guard : Option Ret) (rF rA : Ret) (m : LMap K V) (mode : Mode) (k : K) (v : V) :
+    run d hash thr mode k v (canonLookup guard rF rA) m =
+      (m, some (match guard with
+                | some r => if d.refuse k then r else if (m.tab.get hash k).isSome then rF else rA
+                | none => if (m.tab.get hash k).isSome then rF else rA)) := by
+  have core : run d hash thr mode k v [TSt.index, TSt.scan [FSt.ret rF], TSt.ret rA] m =
+      (m, some (if (m.tab.get hash k).isSome then rF else rA)) := by
+    unfold run
+    cases hg : m.tab.get hash k <;> simp [runT, stepT, runF, stepF, hg]
+  cases guard with
+  | none => simpa [canonLookup] using core
+  | some r =>
+    simp only [canonLookup, List.cons_append, List.nil_append]
+    rw [run_guardEmpty, core]
+    cases d.refuse k <;> simp
+
+/-- `GetLRU`: the found cell is relinked to the back, its value returned -/
+def canonGetLRU : List TSt := [TSt.index, TSt.scan [FSt.saveOld, FSt.relink .back, FSt.ret .old], TSt.ret .absent]
+
+theorem canonGetLRU_correct (m : LMap K V) (mode : Mode) (k : K) (v : V) :
+    run d hash thr mode k v canonGetLRU m =
+      (match m.tab.get hash k with
+       | some _ => ({ m with order := LMap.moveLast m.order k }, some Ret.old)
+       | none => (m, some Ret.absent)) := by
+  unfold run canonGetLRU
+  cases hg : m.tab.get hash k <;> simp [runT, stepT, runF, stepF, hg]
+
+/-- `RemoveFirst` / `RemoveLast`: `if count == 0 { return r }; return this.remove(header.link_X.key)` -/
+def canonRemoveEnd (r : Ret) (e : End) : List TSt := [TSt.retIfEmpty r, TSt.retRemoveEnd e]
+
+theorem canonRemoveEnd_correct (r : Ret) (m : LMap K V) (mode : Mode) (k : K) (v : V) :
+    (run d hash thr mode k v (canonRemoveEnd r .front) m).1 = (LMap.step hash thr d m .removeFirst).1 ∧
+    (run d hash thr mode k v (canonRemoveEnd r .back) m).1 = (LMap.step hash thr d m .removeLast).1 := by
+  unfold run canonRemoveEnd
+  constructor
+  · by_cases hc : m.count = 0
+    · simp [runT, stepT, hc, LMap.step]
+    · cases ho : m.order.head? <;> simp [runT, stepT, hc, LMap.step, ho]
+  · by_cases hc : m.count = 0
+    · simp [runT, stepT, hc, LMap.step]
+    · cases ho : m.order.getLast? <;> simp [runT, stepT, hc, LMap.step, ho]
+
+/-- `clear()` of the linked types -/
+def canonClear : List TSt := [TSt.clearBuckets, TSt.headerReset, TSt.countZero]
+
+theorem canonClear_correct (m : LMap K V) (mode : Mode) (k : K) (v : V) :
+    run d hash thr mode k v canonClear m = (m.clear, none) := by
+  unfold run canonClear LMap.clear
+  simp [runT, stepT]
+
+/-- `clear()` of the plain types (IntIntMap returns at once when empty) -/
+def canonClearP (early : Bool) : List TSt :=
+  (if early then [TSt.retIfEmpty .nothing] else []) ++ [TSt.clearBuckets, TSt.countZero]
+
+theorem canonClearP_correct (early : Bool) (pm : PMap K V) (k : K) (v : V) :
+    toP (run d hash thr .last k v (canonClearP early) (ofP pm)).1 = (if early ∧ pm.count = 0 then pm else pm.clear) := by
+  unfold run canonClearP PMap.clear
+  cases early
+  · simp [runT, stepT, toP, ofP]
+  · by_cases hc : pm.count = 0
+    · obtain ⟨tab, count, threshold, max⟩ := pm
+      simp only at hc; subst hc
+      simp [runT, stepT, toP, ofP]
+    · simp [runT, stepT, toP, ofP, hc]
+
+/-! ### ContainsValue and Sort: loop nests read as functions of their bounds -/
+
+/-- `for i := <start>; i <cond> lo; i-- { for e := tab[i - off]; … if e.value == value { return true } } return false`
+    (`fromLen`: start is `len(tab)`, else `len(tab) - 1`; `strict`: the condition is `i > lo`, else `i >= lo`) -/
+structure CVFacts where
+  fromLen : Bool
+  strict : Bool
+  lo : Nat
+  off : Nat
+  comparesValue : Bool
+  deriving DecidableEq, Repr
+
+def cvVisited (f : CVFacts) (cap : Nat) : List Nat :=
+  let start := if f.fromLen then cap else cap - 1
+  let is := (List.range (start + 1)).reverse.filter (fun i => if f.strict then decide (f.lo < i) else decide (f.lo ≤ i))
+  -- with `len(tab) - 1` as start an empty table is never entered (the Go int would be -1)
+  (if f.fromLen || 0 < cap then is else []).map (fun i => i - f.off)
+
+def interpCV (f : CVFacts) (m : LMap K V) (v : V) : Bool :=
+  f.comparesValue && ((cvVisited f m.tab.cap).flatMap m.tab.bucket).any (fun e => d.veq e.2 v)
+
+def canonCVa : CVFacts := ⟨true, true, 0, 1, true⟩    -- i := len(tab); i > 0; tab[i-1]
+def canonCVb : CVFacts := ⟨false, false, 0, 0, true⟩  -- i := len(tab)-1; i >= 0; tab[i]
+
+theorem cvVisited_a (cap : Nat) : cvVisited canonCVa cap = (List.range cap).reverse := by
+  have := visited_canon cap
+  unfold visited canonRehash at this
+  unfold cvVisited canonCVa
+  simpa using this
+
+theorem cvVisited_b (cap : Nat) : cvVisited canonCVb cap = (List.range cap).reverse := by
+  unfold cvVisited canonCVb
+  cases cap with
+  | zero => simp
+  | succ n => simp
+
+theorem interpCV_correct (m : LMap K V) (v : V) :
+    interpCV d canonCVa m v = (LMap.step hash thr d m (.containsValue v)).2.isTrue ∧
+    interpCV d canonCVb m v = (LMap.step hash thr d m (.containsValue v)).2.isTrue := by
+  unfold interpCV
+  rw [cvVisited_a, cvVisited_b]
+  simp [LMap.step, Table.entries, canonCVa, canonCVb, Out.isTrue]
+
+/-- `Sort`: collect `count` entries with the entry enumerator, `sort.Sort` by key under the comparator, `clear()`, re-`put` each
+    with the stated mode -/
+structure SortFacts where
+  collectsEntries : Bool   -- `list[i] = en.NextElement()` (or the order-list walk) for i < count
+  sortsByKey : Bool        -- `sort.Sort(…{compare: c, data: list})` with `Less = compare(data[i].GetKey(), data[j].GetKey())`
+  clears : Bool
+  reput : Option Mode      -- `this.put(list[i].GetKey(), list[i].GetValue(), <mode>)`
+  deriving DecidableEq, Repr
+
+def canonSort : SortFacts := ⟨true, true, true, some .last⟩
+
+def interpSort (f : SortFacts) (m : LMap K V) (lt : K → K → Bool) : LMap K V :=
+  let es := if f.collectsEntries then m.entries hash else []
+  let sorted := if f.sortsByKey then AL.sortEnts lt es else es
+  let m0 := if f.clears then m.clear else m
+  match f.reput with
+  | some mode => sorted.foldl (fun acc e => (acc.put hash thr d mode e.1 e.2).1) m0
+  | none => m0
+
+theorem interpSort_correct (m : LMap K V) (lt : K → K → Bool) :
+    interpSort d hash thr canonSort m lt = m.sort hash thr d lt := by
+  unfold interpSort canonSort LMap.sort; rfl
+
+/-- `IntIntMap.Sort` (a plain map: entries come from the table enumerator, `put` has no mode) -/
+def interpSortP (pd : PDesc K V) (f : SortFacts) (pm : PMap K V) (lt : K → K → Bool) : PMap K V :=
+  let es := if f.collectsEntries then pm.tab.entries else []
+  let sorted := if f.sortsByKey then AL.sortEnts lt es else es
+  let m0 := if f.clears then pm.clear else pm
+  match f.reput with
+  | some _ => sorted.foldl (fun acc e => (acc.put hash thr pd e.1 e.2).1) m0
+  | none => m0
+
+theorem interpSortP_correct (pd : PDesc K V) (pm : PMap K V) (lt : K → K → Bool) :
+    interpSortP hash thr pd canonSort pm lt = pm.sort hash thr pd lt := by
+  unfold interpSortP canonSort PMap.sort; rfl
+
+theorem interpCV_plain_correct (pd : PDesc K V) (pm : PMap K V) (v : V) :
+    interpCV pd.toDesc canonCVa (ofP pm) v = (PMap.step hash thr pd pm (.containsValue v)).2.isTrue ∧
+    interpCV pd.toDesc canonCVb (ofP pm) v = (PMap.step hash thr pd pm (.containsValue v)).2.isTrue := by
+  unfold interpCV
+  rw [cvVisited_a, cvVisited_b]
+  simp [PMap.step, Table.entries, canonCVa, canonCVb, Out.isTrue, ofP]
+
+/-- which guard a transcribed lookup starts with -/
+def guardHead : List TSt → Option Ret
+  | TSt.guardEmpty r :: _ => some r
+  | _ => none
+
+/-! ### ToBytes / ToObject: the sequence of stream calls -/
+
+/-- a stream call: which codec, on what -/
+inductive WCall | decCount | decKey | decVal | floatVal | unknown
+  deriving DecidableEq, Repr
+
+/-- `ToBytes`: the calls before the entry loop and the calls per entry;  `ToObject`: the reads before the loop, the reads per
+    entry, and whether each decoded pair is `Put` -/
+structure WireFacts where
+  head : List WCall
+  perEntry : List WCall
+  puts : Bool
+  deriving DecidableEq, Repr
+
+def canonWire (float : Bool) : WireFacts := ⟨[.decCount], [.decKey, if float then .floatVal else .decVal], true⟩
+
+open Prim in
+def encCall (n : Nat) (e : Int × Int) : WCall → Bytes
+  | .decCount => encDecimal n
+  | .decKey => encDecimal e.1
+  | .decVal => encDecimal e.2
+  | .floatVal => beN 4 e.2.toNat
+  | .unknown => []
+
+def interpToBytes (f : WireFacts) (es : List (Int × Int)) : Bytes :=
+  f.head.flatMap (encCall es.length (0, 0)) ++ Prim.encMany (fun e => f.perEntry.flatMap (encCall es.length e)) es
+
+theorem interpToBytes_correct (float : Bool) (es : List (Int × Int)) :
+    interpToBytes (canonWire float) es = if float then pairsToBytesF es else pairsToBytes es := by
+  unfold interpToBytes canonWire pairsToBytesF pairsToBytes
+  cases float
+  · have : (fun e : Int × Int => List.flatMap (encCall es.length e) [WCall.decKey, WCall.decVal]) = encPair := by
+      funext e; simp [encCall, encPair]
+    simp only [List.flatMap_cons, List.flatMap_nil, List.append_nil, encCall, Bool.false_eq_true, if_false]
+    rfl
+  · have : (fun e : Int × Int => List.flatMap (encCall es.length e) [WCall.decKey, WCall.floatVal]) = encPairF := by
+      funext e; simp [encCall, encPairF]
+    simp only [List.flatMap_cons, List.flatMap_nil, List.append_nil, encCall, if_true]
+    rfl
+
+/-- the reader a `ToObject` with these facts is: recognised forms only (anything else reads nothing) -/
+def interpReader (f : WireFacts) : P (List (Int × Int)) :=
+  if f = canonWire false then pairsFromBytes
+  else if f = canonWire true then pairsFromBytesF
+  else .fail
+
+theorem interpReader_correct (float : Bool) :
+    interpReader (canonWire float) = if float then pairsFromBytesF else pairsFromBytes := by
+  cases float <;> simp [interpReader, canonWire]
 
 /-! ### the shapes of the seventeen types (by reading; tied to the descriptors by `shapes_match_descriptors`) -/
 
